@@ -64,6 +64,8 @@ typedef struct {
   size_t size;
   int type;
   int live;
+  void *caller[4];  /* return address of the allocating call; with FA_BT=1 in the environment
+                       three more frames (naming a leak) */
 } fa_blk_t;
 #define FA_TAB (1u << 16)
 static fa_blk_t fa_tab[FA_TAB];
@@ -169,11 +171,18 @@ static void fa_check_guards(fa_blk_t *b) {
 }
 #endif
 
+static int fa_in_real = 0;        /* inside libcoap's own allocator (coap_mem.c) */
+
 static void *fa_raw_alloc(int type, size_t size) {
 #ifdef FA_PASSTHROUGH
-  return __real_coap_malloc_type((coap_memory_tag_t)type, size);
+  fa_in_real++;
+  void *q = __real_coap_malloc_type((coap_memory_tag_t)type, size);
+  fa_in_real--;
+  return q;
 #else
+  fa_in_real++;
   uint8_t *raw = (uint8_t *)__real_coap_malloc_type((coap_memory_tag_t)type, size + 2 * FA_GZ);
+  fa_in_real--;
   if (!raw) return NULL;
   memset(raw, 0xFA, FA_GZ);
   memset(raw + FA_GZ, 0xA5, size);
@@ -182,9 +191,23 @@ static void *fa_raw_alloc(int type, size_t size) {
 #endif
 }
 
+static void *fa_cur_caller = NULL;
+static int fa_deep_bt = -1;
 static void *fa_register(void *p, int type, size_t size) {
   fa_blk_t *b = fa_slot(p, 1);
   if (!b) abort();
+  memset(b->caller, 0, sizeof(b->caller));
+  b->caller[0] = fa_cur_caller;
+  if (fa_deep_bt < 0) fa_deep_bt = getenv("FA_BT") != NULL;
+  if (fa_deep_bt) {
+    void *bt[FA_BT];
+    int n = backtrace(bt, FA_BT), k = 1;
+    for (int i = 0; i < n; i++)
+      if (bt[i] == fa_cur_caller) {
+        for (int j = i + 1; j < n && k < 4; j++) b->caller[k++] = bt[j];
+        break;
+      }
+  }
   b->id = fa_next_id++;
   b->size = size;
   b->type = type;
@@ -194,6 +217,7 @@ static void *fa_register(void *p, int type, size_t size) {
 }
 
 void *__wrap_coap_malloc_type(coap_memory_tag_t type, size_t size) {
+  fa_cur_caller = __builtin_return_address(0);
   if (fa_armed) fa_note_site((int)type, size, __builtin_return_address(0), 0);
   if (fa_should_fail((int)type, size, 0, __builtin_return_address(0))) {
     fa_ev("x", 0, 0);
@@ -236,6 +260,7 @@ void __wrap_coap_free_type(coap_memory_tag_t type, void *p) {
 }
 
 void *__wrap_coap_realloc_type(coap_memory_tag_t type, void *p, size_t size) {
+  fa_cur_caller = __builtin_return_address(0);
   if (fa_armed) fa_note_site((int)type, size, __builtin_return_address(0), 1);
   fa_blk_t *ob = p ? fa_slot(p, 0) : NULL;
   long oid = p ? (ob ? ob->id : -1) : 0;
@@ -250,7 +275,9 @@ void *__wrap_coap_realloc_type(coap_memory_tag_t type, void *p, size_t size) {
   }
 #ifdef FA_PASSTHROUGH
   /* let ASan see a real realloc; ids still change */
+  fa_in_real++;
   void *np = __real_coap_realloc_type(type, p, size);
+  fa_in_real--;
   if (!np) {
     fa_ev("y%ld", oid, 0);
     return NULL;
@@ -278,6 +305,44 @@ void *__wrap_coap_realloc_type(coap_memory_tag_t type, void *p, size_t size) {
   fa_ev("r%ld:%ld", oid, fa_next_id - 1);
   return np;
 }
+
+#ifdef FA_WRAP_MALLOC
+/* ---- direct malloc() calls of libcoap objects: uthash (hash head, bucket array, bucket
+ * expansion in coap_session.c, coap_resource.c, coap_cache.c, oscore_context.c).  The driver is
+ * linked with --wrap=malloc and calls __real_malloc itself, so what arrives here while
+ * fa_in_real == 0 is a malloc made by libcoap outside coap_mem.c.  Only a counter and a
+ * "fail the j-th" switch: these blocks are not part of the trace (they are released with the
+ * libc free()). */
+void *__real_malloc(size_t n);
+static long fa_u_attempts = 0, fa_u_fail_at = 0;
+static int fa_u_injected = 0;
+
+void *__wrap_malloc(size_t n) {
+  if (fa_in_real || !fa_armed) return __real_malloc(n);
+  fa_u_attempts++;
+  if (fa_u_fail_at && fa_u_attempts == fa_u_fail_at) {
+    fa_u_injected++;
+    if (fa_notice_fd >= 0) {
+      void *bt[FA_BT];
+      char line[512];
+      void *caller = __builtin_return_address(0);
+      int nb = backtrace(bt, FA_BT), start = nb;
+      int o = snprintf(line, sizeof(line), "I %ld U 0 %zu %p", fa_u_attempts, n, caller);
+      for (int i = 0; i < nb; i++)
+        if (bt[i] == caller) {
+          start = i + 1;
+          break;
+        }
+      for (int i = start; i < nb && o < (int)sizeof(line) - 24; i++)
+        o += snprintf(line + o, sizeof(line) - (size_t)o, " %p", bt[i]);
+      line[o++] = '\n';
+      if (write(fa_notice_fd, line, (size_t)o) < 0) { /* ignore */ }
+    }
+    return NULL;
+  }
+  return __real_malloc(n);
+}
+#endif
 
 /* end-of-run sweep: guards of live blocks, poison of freed ones (base variant) */
 static void fa_final_sweep(void) {
